@@ -351,7 +351,11 @@ class Walker:
         over a literal sequence they are unrolled exactly ([f(a), f(b)]); over anything else `[f(v) for v in xs]`
         becomes the one-iteration list [f(v)] with v registered as a loop variable over xs — the value an
         append-loop over xs gives under the walker's loop policy.  Generators over literal sequences become tuples."""
-        if v is None or not any(isinstance(n, (ast.ListComp, ast.GeneratorExp, ast.DictComp)) for n in ast.walk(v)):
+        if v is None:
+            return v
+        from .canon import recanon
+        v = recanon(v)
+        if not any(isinstance(n, (ast.ListComp, ast.GeneratorExp, ast.DictComp)) for n in ast.walk(v)):
             return v
         walker = self
 
@@ -548,7 +552,7 @@ class Walker:
             trues, _ = self.cond(t, p, "assert")
             return [(a, FALL) for a in trues]
         if isinstance(s, ast.If):
-            t = subst(s.test, p.env)
+            t = self.comps(p, subst(s.test, p.env))
             self.ev(p, "eval", s, None, t)
             trues, falses = self.cond(t, p, "if")
             out = []
